@@ -10,7 +10,8 @@ MCSchemes == <<
   << <<"file", "FILE", "fIlE", "&#102;ile", "fi&#x6c;e", "f\\ile">>, Colon, <<"///", "//x/", "">> >>,
   << <<"data", "DATA", "dAtA", "&#100;ata", "d&#x61;ta">>, Colon,
      <<"text/html;", "text/html,", "image/svg+xml;", "image/png;", "IMAGE/PNG;", "image/gif;", "image/jpeg;",
-       "image/webp;", "image/png", "text/html;image/png;", "image/png&semi;", "image/x-png;", ";", "">> >>,
+       "image/webp;", "image/png", "text/html;image/png;", "image/png&semi;", "image/x-png;", ";", "",
+       "text/html;data:image/png;base64,", "text/html,<!--data:image/gif;-->", "application/x;data:image/webp;", "x,data:image/jpeg;">> >>,
   << <<"http", "HTTP", "https", "mailto", "ftp", "tel", "x-javascript", "javascripts", "java-script">>, Colon, <<"//x.y/", "">> >>,
   << <<"", "/", "./", "#", "?", "//">>, <<"javascript", "a b", "a%20b", "{u+00e9}", "%", "%zz", "[x]", "a\\)b", "&amp;">>, <<":", "">> >>,
   \* e-mail shaped destinations (autolink producer: the mailto: form) and characters outside the URL-safe set
